@@ -202,4 +202,304 @@ Proof.
   exact (all_tokens_loop_P ff _ _ _ _ El (new_lexer_P _ Hd)).
 Qed.
 
+(* ---- walker ------------------------------------------------------------------------------ *)
+Inductive valP : value -> Prop :=
+| valP_tok t s e : tokP t -> valP (VTok t s e)
+| valP_arr vs s e : Forall valP vs -> valP (VArr vs s e).
+
+Definition refP (r : reference) : Prop := Forall tokP r.
+Definition tagP (t : tag) : Prop :=
+  (forall mt, tmark_tok t = Some mt -> tokP mt) /\
+  match tbody t with TagRef r => refP r | TagVal v => valP v end.
+Definition commentP (c : option comment) : Prop :=
+  match c with Some c => Forall P (cvalue c) | None => True end.
+Definition descP (d : descr) : Prop := Forall tokP (dtoks d) /\ Forall P (dvalue d).
+Definition headerP (h : header) : Prop :=
+  refP (htype h) /\ Forall tagP (htags h) /\ Forall tagP (hquals h) /\
+  match hdesc h with Some d => descP d | None => True end /\ commentP (hcomment h).
+Definition assignP (a : assign) : Prop := refP (akey a) /\ valP (avalue a) /\ commentP (acomment a).
+Definition frag_P (f : fragment) : Prop :=
+  match f with
+  | FHeader h => headerP h
+  | FAssign a => assignP a
+  | FDesc d => descP d
+  | FComment t => tokP t
+  | FClose t => tokP t
+  end.
+
+Lemma join_with_P sep ls : sep < 128 -> Forall (Forall P) ls -> Forall P (join_with sep ls).
+Proof.
+  intros Hs. induction ls as [|l r IH]; intros H; [constructor|].
+  inversion H as [|x y Hl Hr]; subst. cbn [join_with]. destruct r as [|l2 r2]; [exact Hl|].
+  apply Forall_app. split; [exact Hl|]. constructor; [apply P_ascii, Hs|apply IH, Hr].
+Qed.
+
+Lemma map_lit_P ts : Forall tokP ts -> Forall (Forall P) (map lit ts).
+Proof. intros H. apply Forall_map. exact H. Qed.
+
+(* state: the remaining tokens and the previous one *)
+Definition winv (s : wstate) : Prop := Forall tokP (wrest s) /\ (forall p, wprev s = Some p -> tokP p).
+
+Lemma pop_token_P s t s' : winv s -> pop_token s = WOk t s' -> tokP t /\ winv s'.
+Proof.
+  intros [Hr Hp]. unfold pop_token. destruct (wrest s) as [|t0 r] eqn:Er.
+  - destruct (wprev s) as [p|] eqn:Ep; [|discriminate].
+    destruct (tt_eqb (ty p) EOF); intros [= <- <-].
+    + split; [apply Hp; reflexivity|]. split; [rewrite Er; apply Forall_nil|rewrite Ep; exact Hp].
+    + split; [constructor|]. split; [rewrite Er; apply Forall_nil|rewrite Ep; exact Hp].
+  - intros [= <- <-]. inversion Hr as [|x y Ht0 Hr']; subst. split; [exact Ht0|].
+    split; cbn; [exact Hr'|]. intros p [= <-]. exact Ht0.
+Qed.
+
+Lemma as_ident_P t i : tokP t -> as_ident t = Some i -> tokP i.
+Proof.
+  unfold as_ident. intros Ht. destruct (ty t); try discriminate; intros [= <-]; exact Ht.
+Qed.
+
+Lemma pop_ident_P s i s' : winv s -> pop_ident s = WOk i s' -> tokP i /\ winv s'.
+Proof.
+  intros Hs. unfold pop_ident.
+  destruct (pop_token s) as [t s1|t0 e0 s1|p|] eqn:E; try discriminate. cbn [wbind].
+  destruct (pop_token_P _ _ _ Hs E) as [Ht H1].
+  destruct (as_ident t) as [i0|] eqn:Ei; [|discriminate]. intros [= <- <-].
+  split; [exact (as_ident_P _ _ Ht Ei)|exact H1].
+Qed.
+
+Lemma pop_reference_loop_P : forall fuel acc s r s', winv s -> refP acc ->
+  pop_reference_loop fuel acc s = WOk r s' -> refP r /\ winv s'.
+Proof.
+  induction fuel as [|f IH]; intros acc s r s' Hs Ha; cbn [pop_reference_loop]; [discriminate|].
+  destruct (pop_ident s) as [i s1|t e s1|p|] eqn:E; try discriminate.
+  - destruct (pop_ident_P _ _ _ Hs E) as [Hi H1].
+    assert (Ha' : refP (acc ++ [i])) by (apply Forall_app; split; [exact Ha|constructor; [exact Hi|constructor]]).
+    destruct (tt_eqb (next_type s1) DOT).
+    + destruct (pop_token s1) as [t2 s2|t2 e2 s2|p|] eqn:E2; try discriminate. cbn [wbind].
+      destruct (pop_token_P _ _ _ H1 E2) as [_ H2]. apply IH; assumption.
+    + intros [= <- <-]. split; assumption.
+  - destruct acc; discriminate.
+Qed.
+
+Lemma pop_reference_P s r s' : winv s -> pop_reference s = WOk r s' -> refP r /\ winv s'.
+Proof. intros Hs. unfold pop_reference. apply pop_reference_loop_P; [exact Hs|constructor]. Qed.
+
+Lemma pop_elems_P pv :
+  (forall s v s', winv s -> pv s = WOk v s' -> valP v /\ winv s') ->
+  forall fuel2 op acc s v s', winv s -> Forall valP acc ->
+  pop_elems pv fuel2 op acc s = WOk v s' -> valP v /\ winv s'.
+Proof.
+  intros Hpv. induction fuel2 as [|f2 IH]; intros op acc s v s' Hs Ha; cbn [pop_elems]; [discriminate|].
+  destruct (pv s) as [v0 s2|t e s2|p|] eqn:Ev; try discriminate. cbn [wbind].
+  destruct (Hpv _ _ _ Hs Ev) as [Hv0 H2].
+  assert (Ha' : Forall valP (acc ++ [v0])) by (apply Forall_app; split; [exact Ha|constructor; [exact Hv0|constructor]]).
+  destruct (pop_token s2) as [t3 s3|t3 e3 s3|p|] eqn:E3; cbn [wbind];
+    [|destruct (tt_eqb (next_type s2) COMMA); [|destruct (tt_eqb (next_type s2) RBRACK)]; discriminate..].
+  destruct (pop_token_P _ _ _ H2 E3) as [_ H3].
+  destruct (tt_eqb (next_type s2) COMMA); [apply IH; assumption|].
+  destruct (tt_eqb (next_type s2) RBRACK); [|discriminate].
+  intros [= <- <-]. split; [constructor; exact Ha'|exact H3].
+Qed.
+
+Lemma pop_value_P : forall fuel depth s v s', winv s ->
+  pop_value fuel depth s = WOk v s' -> valP v /\ winv s'.
+Proof.
+  induction fuel as [|f IH]; intros depth s v s' Hs; cbn [pop_value]; [discriminate|].
+  destruct (tt_eqb (next_type s) IDENT).
+  { destruct (pop_reference s) as [r s1|t e s1|p|] eqn:Er; try discriminate. cbn [wbind]. intros [= <- <-].
+    destruct (pop_reference_P _ _ _ Hs Er) as [Hr H1]. split; [|exact H1].
+    constructor. unfold tokP. cbn [lit]. unfold ref_string. apply join_with_P; [lia|apply map_lit_P, Hr]. }
+  destruct (is_literal (next_type s)).
+  { destruct (pop_token s) as [t s1|t e s1|p|] eqn:Et; try discriminate. cbn [wbind]. intros [= <- <-].
+    destruct (pop_token_P _ _ _ Hs Et) as [Ht H1]. split; [constructor; exact Ht|exact H1]. }
+  destruct (tt_eqb (next_type s) LBRACK); cycle 1.
+  { destruct (pop_token s); discriminate. }
+  destruct (pop_token s) as [op s1|t e s1|p|] eqn:Et; try discriminate. cbn [wbind].
+  destruct (pop_token_P _ _ _ Hs Et) as [_ H1].
+  destruct (N.leb max_value_depth depth); [discriminate|].
+  destruct (tt_eqb (next_type s1) RBRACK).
+  { destruct (pop_token s1) as [t2 s2|t2 e2 s2|p|] eqn:E2; try discriminate. cbn [wbind]. intros [= <- <-].
+    destruct (pop_token_P _ _ _ H1 E2) as [_ H2]. split; [constructor; constructor|exact H2]. }
+  apply (pop_elems_P (pop_value f (N.succ depth))); [|exact H1|constructor].
+  intros s2 v2 s3 H2 E2. exact (IH _ _ _ _ H2 E2).
+Qed.
+
+Lemma pop_value_top_P s v s' : winv s -> pop_value_top s = WOk v s' -> valP v /\ winv s'.
+Proof. intros Hs. unfold pop_value_top. apply pop_value_P, Hs. Qed.
+
+Lemma pop_description_loop_P : forall fuel acc s d s', winv s -> Forall tokP acc ->
+  pop_description_loop fuel acc s = WOk d s' -> descP d /\ winv s'.
+Proof.
+  induction fuel as [|f IH]; intros acc s d s' Hs Ha; cbn [pop_description_loop]; [discriminate|].
+  destruct (pop_token s) as [t s1|t e s1|p|] eqn:Et; try discriminate. cbn [wbind].
+  destruct (pop_token_P _ _ _ Hs Et) as [Ht H1].
+  assert (Ha' : Forall tokP (acc ++ [t])) by (apply Forall_app; split; [exact Ha|constructor; [exact Ht|constructor]]).
+  destruct (tt_eqb (peek_type 0 s1) EOL && tt_eqb (peek_type 1 s1) DESCRIPTION)%bool.
+  - destruct (pop_token s1) as [t2 s2|t2 e2 s2|p|] eqn:E2; try discriminate. cbn [wbind].
+    destruct (pop_token_P _ _ _ H1 E2) as [_ H2]. apply IH; assumption.
+  - intros [= <- <-]. split; [|exact H1]. split; cbn [dtoks dvalue]; [exact Ha'|].
+    apply join_with_P; [lia|apply map_lit_P, Ha'].
+Qed.
+
+Lemma pop_tag_P s t s' : winv s -> pop_tag s = WOk t s' -> tagP t /\ winv s'.
+Proof.
+  intros Hs. unfold pop_tag.
+  assert (Hafter : forall mk mt s0, winv s0 -> (forall m, mt = Some m -> tokP m) ->
+    match next_type s0 with
+    | IDENT | BOOL =>
+      wbind (pop_reference s0) (fun r s1 => WOk (mkTag mk mt (TagRef r) (ref_start r) (ref_end r)) s1)
+    | STRING =>
+      wbind (pop_value_top s0) (fun v s1 => WOk (mkTag mk mt (TagVal v) (value_start v) (value_end v)) s1)
+    | _ => wbind (pop_token s0) (fun t s1 => WErr t (Expected exp_tag) s1)
+    end = WOk t s' -> tagP t /\ winv s').
+  { intros mk mt s0 H0 Hm.
+    assert (Hr : wbind (pop_reference s0) (fun r s1 => WOk (mkTag mk mt (TagRef r) (ref_start r) (ref_end r)) s1) = WOk t s' ->
+                 tagP t /\ winv s').
+    { destruct (pop_reference s0) as [r s1|t1 e1 s1|p|] eqn:Er; try discriminate. cbn [wbind]. intros [= <- <-].
+      destruct (pop_reference_P _ _ _ H0 Er) as [Hr H1]. split; [|exact H1]. split; [exact Hm|exact Hr]. }
+    assert (Hd : wbind (pop_token s0) (fun t s1 => WErr (A:=tag) t (Expected exp_tag) s1) = WOk t s' -> tagP t /\ winv s').
+    { destruct (pop_token s0); discriminate. }
+    destruct (next_type s0); auto.
+    destruct (pop_value_top s0) as [v s1|t1 e1 s1|p|] eqn:Ev; try discriminate. cbn [wbind]. intros [= <- <-].
+    destruct (pop_value_top_P _ _ _ H0 Ev) as [Hv H1]. split; [|exact H1]. split; [exact Hm|exact Hv]. }
+  pose proof (Hafter MarkNone None s Hs ltac:(intros m [=])) as Hnone.
+  assert (Hmark : forall mk,
+      wbind (pop_token s) (fun t0 s1 =>
+      match next_type s1 with
+      | IDENT | BOOL =>
+        wbind (pop_reference s1) (fun r s2 => WOk (mkTag mk (Some t0) (TagRef r) (ref_start r) (ref_end r)) s2)
+      | STRING =>
+        wbind (pop_value_top s1) (fun v s2 => WOk (mkTag mk (Some t0) (TagVal v) (value_start v) (value_end v)) s2)
+      | _ => wbind (pop_token s1) (fun t s2 => WErr t (Expected exp_tag) s2)
+      end) = WOk t s' -> tagP t /\ winv s').
+  { intros mk. destruct (pop_token s) as [t0 s1|t0 e0 s1|p|] eqn:E; try discriminate. cbn [wbind].
+    destruct (pop_token_P _ _ _ Hs E) as [Ht0 H1]. apply Hafter; [exact H1|]. intros m [= <-]. exact Ht0. }
+  cbv zeta. destruct (next_type s); try exact Hnone; apply Hmark.
+Qed.
+
+Lemma tags_loop_P : forall fuel acc s ts s', winv s -> Forall tagP acc ->
+  tags_loop fuel acc s = WOk ts s' -> Forall tagP ts /\ winv s'.
+Proof.
+  induction fuel as [|f IH]; intros acc s ts s' Hs Ha; cbn [tags_loop]; [discriminate|].
+  destruct (can_start_tag (next_type s)); [|intros [= <- <-]; split; assumption].
+  destruct (pop_tag s) as [t s1|t e s1|p|] eqn:Et; try discriminate. cbn [wbind].
+  destruct (pop_tag_P _ _ _ Hs Et) as [Ht H1].
+  apply IH; [exact H1|]. apply Forall_app. split; [exact Ha|constructor; [exact Ht|constructor]].
+Qed.
+
+Lemma quals_loop_P : forall fuel acc s ts s', winv s -> Forall tagP acc ->
+  quals_loop fuel acc s = WOk ts s' -> Forall tagP ts /\ winv s'.
+Proof.
+  induction fuel as [|f IH]; intros acc s ts s' Hs Ha; cbn [quals_loop]; [discriminate|].
+  destruct (tt_eqb (next_type s) COLON); [|intros [= <- <-]; split; assumption].
+  destruct (pop_token s) as [t0 s0|t0 e0 s0|p|] eqn:E0; try discriminate. cbn [wbind].
+  destruct (pop_token_P _ _ _ Hs E0) as [_ H0].
+  destruct (pop_tag s0) as [t s1|t e s1|p|] eqn:Et; try discriminate. cbn [wbind].
+  destruct (pop_tag_P _ _ _ H0 Et) as [Ht H1].
+  apply IH; [exact H1|]. apply Forall_app. split; [exact Ha|constructor; [exact Ht|constructor]].
+Qed.
+
+Lemma end_statement_P s c s' : winv s -> end_statement s = WOk c s' -> commentP c /\ winv s'.
+Proof.
+  intros Hs. unfold end_statement.
+  destruct (pop_token s) as [t s1|t e s1|p|] eqn:Et; try discriminate. cbn [wbind].
+  destruct (pop_token_P _ _ _ Hs Et) as [Ht H1].
+  destruct (ty t); try discriminate.
+  - intros [= <- <-]. split; [exact I|exact H1].
+  - intros [= <- <-]. split; [exact I|exact H1].
+  - destruct (pop_token s1) as [t2 s2|t2 e2 s2|p|] eqn:E2; try discriminate. cbn [wbind].
+    destruct (pop_token_P _ _ _ H1 E2) as [_ H2].
+    destruct (ty t2); try discriminate; intros [= <- <-]; (split; [exact Ht|exact H2]).
+Qed.
+
+Lemma walk_value_assign_P r app s f s' : winv s -> refP r ->
+  walk_value_assign r app s = WOk f s' -> frag_P f /\ winv s'.
+Proof.
+  intros Hs Hr. unfold walk_value_assign.
+  destruct (pop_token s) as [t s1|t e s1|p|] eqn:Et; try discriminate. cbn [wbind].
+  destruct (pop_token_P _ _ _ Hs Et) as [_ H1].
+  destruct (negb (tt_eqb (ty t) ASSIGN)); [discriminate|].
+  destruct (pop_value_top s1) as [v s2|t2 e2 s2|p|] eqn:Ev; try discriminate. cbn [wbind].
+  destruct (pop_value_top_P _ _ _ H1 Ev) as [Hv H2].
+  destruct (end_statement s2) as [c s3|t3 e3 s3|p|] eqn:Ee; try discriminate. cbn [wbind].
+  destruct (end_statement_P _ _ _ H2 Ee) as [Hc H3].
+  intros [= <- <-]. split; [|exact H3]. cbn. split; [exact Hr|]. split; [exact Hv|exact Hc].
+Qed.
+
+Lemma walk_statement_P s f s' : winv s -> walk_statement s = WOk f s' -> frag_P f /\ winv s'.
+Proof.
+  intros Hs. unfold walk_statement.
+  destruct (pop_reference s) as [r s1|t e s1|p|] eqn:Er; try discriminate. cbn [wbind].
+  destruct (pop_reference_P _ _ _ Hs Er) as [Hr H1].
+  destruct (tt_eqb (next_type s1) ASSIGN).
+  { apply walk_value_assign_P; assumption. }
+  destruct (tt_eqb (next_type s1) PLUS).
+  { destruct (pop_token s1) as [t2 s2|t2 e2 s2|p|] eqn:E2; try discriminate. cbn [wbind].
+    destruct (pop_token_P _ _ _ H1 E2) as [_ H2].
+    destruct (negb (tt_eqb (next_type s2) ASSIGN)); [destruct (pop_token s2); discriminate|].
+    apply walk_value_assign_P; assumption. }
+  destruct (tags_loop (S (length (wrest s1))) [] s1) as [tags s2|t e s2|p|] eqn:Et; try discriminate. cbn [wbind].
+  destruct (tags_loop_P _ _ _ _ _ H1 (Forall_nil _) Et) as [Htags H2].
+  destruct (quals_loop (S (length (wrest s2))) [] s2) as [quals s3|t e s3|p|] eqn:Eq; try discriminate. cbn [wbind].
+  destruct (quals_loop_P _ _ _ _ _ H2 (Forall_nil _) Eq) as [Hquals H3].
+  assert (Hhdr : forall d o e0 c, match d with Some d => descP d | None => True end -> commentP c ->
+            headerP (mkHeader r tags quals d o (ref_start r) e0 c)).
+  { intros d o e0 c Hd Hc. split; [exact Hr|]. split; [exact Htags|]. split; [exact Hquals|]. split; [exact Hd|exact Hc]. }
+  destruct (next_type s3);
+    try (destruct (pop_token s3) as [t4 s4|t4 e4 s4|p|]; discriminate).
+  - intros [= <- <-]. split; [|exact H3]. apply Hhdr; exact I.
+  - intros [= <- <-]. split; [|exact H3]. apply Hhdr; exact I.
+  - destruct (end_statement s3) as [c s5|t5 e5 s5|p|] eqn:Ee; try discriminate. cbn [wbind].
+    destruct (end_statement_P _ _ _ H3 Ee) as [Hc H5].
+    intros [= <- <-]. split; [|exact H5]. apply Hhdr; [exact I|exact Hc].
+  - destruct (pop_token s3) as [t4 s4|t4 e4 s4|p|] eqn:E4; try discriminate. cbn [wbind].
+    destruct (pop_token_P _ _ _ H3 E4) as [Ht4 H4].
+    intros [= <- <-]. split; [|exact H4]. apply Hhdr; [|exact I].
+    split; cbn [dtoks dvalue]; [constructor; [exact Ht4|constructor]|exact Ht4].
+  - destruct (pop_token s3) as [t4 s4|t4 e4 s4|p|] eqn:E4; try discriminate. cbn [wbind].
+    destruct (pop_token_P _ _ _ H3 E4) as [_ H4].
+    destruct (end_statement s4) as [c s5|t5 e5 s5|p|] eqn:Ee; try discriminate. cbn [wbind].
+    destruct (end_statement_P _ _ _ H4 Ee) as [Hc H5].
+    intros [= <- <-]. split; [|exact H5]. apply Hhdr; [exact I|exact Hc].
+Qed.
+
+Definition ofrag_P (fo : option fragment) : Prop := match fo with Some f => frag_P f | None => True end.
+
+Lemma next_fragment_P s fo s' : winv s -> next_fragment s = WOk fo s' -> ofrag_P fo /\ winv s'.
+Proof.
+  intros Hs. unfold next_fragment.
+  assert (Hstmt : wbind (walk_statement s) (fun f s1 => WOk (Some f) s1) = WOk fo s' -> ofrag_P fo /\ winv s').
+  { destruct (walk_statement s) as [f0 s0|t0 e0 s0|p|] eqn:Ew; try discriminate. cbn [wbind].
+    intros [= <- <-]. exact (walk_statement_P _ _ _ Hs Ew). }
+  destruct (next_type s); try exact Hstmt;
+    try (destruct (pop_token s) as [t s1|t e s1|p|] eqn:Et; cbn [wbind]; [|discriminate..];
+         first [discriminate
+               |destruct (pop_token_P _ _ _ Hs Et) as [Ht H1]; intros [= <- <-]; split; [first [exact I|exact Ht]|exact H1]]).
+  unfold pop_description.
+  destruct (pop_description_loop (S (length (wrest s))) [] s) as [d s0|t0 e0 s0|p|] eqn:Ed; try discriminate.
+  cbn [wbind]. intros [= <- <-]. exact (pop_description_loop_P _ _ _ _ _ Hs (Forall_nil _) Ed).
+Qed.
+
+Lemma walk_loop_P : forall fuel s fs ds, winv s ->
+  walk_fragments_loop fuel true s = WalkOk fs ds -> Forall frag_P fs.
+Proof.
+  induction fuel as [|f IH]; intros s fs ds Hs; cbn [walk_fragments_loop]; [discriminate|].
+  destruct (tt_eqb (next_type s) EOF); [intros [= <- _]; constructor|].
+  destruct (next_fragment s) as [fo s1|t e s1|p|] eqn:En; try discriminate.
+  - destruct (next_fragment_P _ _ _ Hs En) as [Hfo H1].
+    destruct (walk_fragments_loop f true s1) as [fs1 ds1|p|] eqn:Ew; try discriminate.
+    pose proof (IH _ _ _ H1 Ew) as Hfs.
+    destruct fo as [fr|]; intros [= <- _]; [constructor; [exact Hfo|exact Hfs]|exact Hfs].
+  - intros [= <- _]. constructor.
+Qed.
+
+Theorem collect_fragments_P data fs : collect_fragments data = Ok fs -> Forall P data -> Forall frag_P fs.
+Proof.
+  unfold collect_fragments. intros E Hd.
+  destruct (all_tokens true data) as [toks|ds|] eqn:El; try discriminate.
+  pose proof (all_tokens_P _ _ _ El Hd) as Htoks. unfold walk_fragments in E.
+  destruct (walk_fragments_loop (S (length toks)) true (mkW toks None)) as [fs' ds|p|] eqn:Ew; try discriminate.
+  destruct ds; [|discriminate]. injection E as <-.
+  assert (Hw : winv (mkW toks None)) by (split; [exact Htoks|intros p Hp; discriminate Hp]).
+  exact (walk_loop_P _ _ _ _ Hw Ew).
+Qed.
+
 End Closed.
